@@ -19,7 +19,7 @@ import mirsym
 import native
 import oblig
 from common import Inconclusive, Report, say, tier
-from mirsym import Agg, Bool, Int, Lazy
+from mirsym import Agg, Bool, EnumV, Int, Lazy
 
 U64 = lambda n: z3.BitVec(n, 64)
 B = z3.Bool
@@ -183,6 +183,32 @@ def run():
     finish(oblig.check_paths(eng, vlp, "visit_link: report / follow decisions, same level", link_table, fns(),
                              key="visit_link:table"), "link")
 
+    # ---- resolve_link: the target that is walked / recorded as visited is always brought to canonical absolute form -----------
+    try:
+        rl = W("resolve_link")
+        eng_rl = oblig.engine(prog, unroll=0, inline=None, extra=optsum.SUMMARIES)
+        lk = Lazy("link", rl.args[1][1])
+        sv = Lazy("self", rl.args[0][1])
+        rlp = eng_rl.run(rl, args=[sv, lk])
+
+        def resolve_prop(p):
+            if p.status != "return" or not isinstance(p.result, EnumV) or p.result.variant != "Ok":
+                return None
+            tup = p.result.fields.get(0)
+            tgt = tup.fields.get(0) if isinstance(tup, Agg) else None
+            ab = [e for e in p.events if e.kind == "call" and re.search(r"Walk::absolute$|canonicalize$", e.callee)]
+            rdl = called(p, r"read_link$")
+            ok = len(rdl) == 1 and any(e.ret is tgt for e in ab)
+            return z3.BoolVal(bool(ok))
+        o = oblig.check_paths(eng_rl, rlp, "resolve_link: the link target (relative or absolute) is made absolute and canonical before it is walked or recorded as visited",
+                              resolve_prop, oblig.fnames(eng_rl), key="resolve_link:canonical", allow=("return", "panic", "diverge"))
+        finish(o, "link")
+    except Inconclusive as e:
+        from common import Obligation
+        o = Obligation("resolve_link", "E2 mirsym/z3")
+        o.verdict, o.detail = "inconclusive", str(e)
+        rep.add(o)
+
     # ---- visit_path ------------------------------------------------------------------
     vpp = eng.run(W("visit_path"))
 
@@ -292,6 +318,15 @@ def run():
         rep.add(o)
 
     rep.extra["closures_composed"] = {"spawn_in_visit_dir": spawn_checked[0], "root_spawn": root_seen[0]}
+    # the visited set (cycle / overlap protection) is keyed by Path::hash128: distinct paths must get distinct keys
+    try:
+        from obligations import path_kernels
+        path_kernels.hash128_obligations(rep, prog, "C09")
+    except Inconclusive as e:
+        from common import Obligation
+        o = Obligation("path hash", "E2 mirsym/z3")
+        o.verdict, o.detail = "inconclusive", str(e)
+        rep.add(o)
     # --name / --path / --exclude: pattern matching and the anchoring of relative patterns at the base directory (shared with C16)
     try:
         from obligations import C16_glob
